@@ -83,6 +83,15 @@ package multiparty
 //@   ensures implies(isnil(err), val(shareOut.Value) == old(val(share1.Value)) + old(val(share2.Value)))
 //@   ensures implies(len(share1.Value.Coeffs) != len(share2.Value.Coeffs) || len(share1.Value.Coeffs) != len(shareOut.Value.Coeffs), !isnil(err))
 
+// the same for the switch to a public key: both components are added; shares of different levels are refused
+//@ afunc PublicKeySwitchProtocol.AggregateShares
+//@   property C16
+//@   requires ((isntt(share1.Value[0]) && isntt(share2.Value[0])) || (iscoef(share1.Value[0]) && iscoef(share2.Value[0]))) && mexp(share1.Value[0]) == mexp(share2.Value[0])
+//@   requires ((isntt(share1.Value[1]) && isntt(share2.Value[1])) || (iscoef(share1.Value[1]) && iscoef(share2.Value[1]))) && mexp(share1.Value[1]) == mexp(share2.Value[1])
+//@   requires len(share1.Value[0].Coeffs) >= 1 && len(share1.Value) == 2 && len(share2.Value) == 2 && len(shareOut.Value) == 2
+//@   ensures implies(isnil(err), val(shareOut.Value[0]) == old(val(share1.Value[0])) + old(val(share2.Value[0])) && val(shareOut.Value[1]) == old(val(share1.Value[1])) + old(val(share2.Value[1])))
+//@   ensures implies(len(share1.Value[0].Coeffs) != len(share2.Value[0].Coeffs) || len(share1.Value[1].Coeffs) != len(share2.Value[1].Coeffs), !isnil(err))
+
 //@ afunc KeySwitchProtocol.KeySwitch
 //@   property C16
 //@   requires len(ctIn.Value) == 2 && len(opOut.Value) == 2 && len(ctIn.Value[0].Coeffs) >= 1
